@@ -90,31 +90,6 @@ func c11check(b *Bimap[int, int], m *c11model, pk, pv int, what string) {
 	}
 }
 
-// c11pre builds an arbitrary valid Bimap of n pairs directly in the representation.
-func c11pre() (*Bimap[int, int], *c11model) {
-	m := &c11model{}
-	b := &Bimap[int, int]{}
-	n := vChoose("n", vParam("N")+1)
-	if n == 0 {
-		if vChoose("zero", 2) == 1 {
-			b.forward, b.reverse = map[int]int{}, map[int]int{}
-		}
-		return b, m
-	}
-	b.forward, b.reverse = map[int]int{}, map[int]int{}
-	for i := 0; i < n; i++ {
-		k, v := vInt("k"), vInt("v")
-		for j := range m.ks {
-			vAssume(k != m.ks[j])
-			vAssume(v != m.vs[j])
-		}
-		m.ks, m.vs, m.alive = append(m.ks, k), append(m.vs, v), append(m.alive, true)
-		b.forward[k] = v
-		b.reverse[v] = k
-	}
-	return b, m
-}
-
 // c11op runs one operation on the Bimap and the model. The operation's own post-conditions are
 // returned as a closure, to be checked AFTER the general probes: a lookup of the pair just added
 // would otherwise refresh any state the implementation keeps about recent lookups and hide a
@@ -147,90 +122,6 @@ func c11op(b *Bimap[int, int], m *c11model, op int) func() {
 		return func() { vAssert(b.Len() == 0, "Clear: Len is 0") }
 	}
 	return func() {}
-}
-
-func VHBimapStep() {
-	b, m := c11pre()
-	pk, pv := vInt("pk"), vInt("pv")
-	c11check(b, m, pk, pv, "pre-state")
-	op := vChoose("op", 4)
-	post := c11op(b, m, op)
-	c11check(b, m, pk, pv, "after the operation")
-	post()
-	if len(m.ks) >= 3 && op == 0 {
-		vCover("bimap: Add on >= 2 pairs")
-	}
-}
-
-func VHBimapCloneRange() {
-	b, m := c11pre()
-	pk, pv := vInt("pk"), vInt("pv")
-	n := len(m.ks)
-	if vChoose("which", 2) == 0 {
-		c := b.Clone()
-		c11check(&c, m, pk, pv, "Clone has the same pairs")
-		c.Add(vInt("ck"), vInt("cv"))
-		if n > 0 {
-			c.RemoveForward(m.ks[0])
-		}
-		c11check(b, m, pk, pv, "modifying the clone leaves the original unchanged")
-		b.Add(vInt("bk"), vInt("bv"))
-		vCover("bimap: clone")
-		return
-	}
-	stop := vChoose("stop", n+2) // stop after this many callbacks (n+1: never)
-	// optionally the callback itself reads the map - lookups and a complete nested Range - during
-	// its nestAt-th invocation: read-only re-entrancy must not disturb the outer iteration
-	nestAt := vChoose("nestAt", n+1) // 0: never
-	var seenK, seenV []int
-	calls := 0
-	b.Range(func(k, v int) bool {
-		calls++
-		seenK, seenV = append(seenK, k), append(seenV, v)
-		if calls == nestAt {
-			inner := 0
-			var innerK []int
-			b.Range(func(k2, v2 int) bool {
-				inner++
-				ev, eok := m.forward(k2)
-				vAssert(eok && ev == v2, "nested Range visits only pairs of the map")
-				for _, x := range innerK {
-					vAssert(x != k2, "nested Range visits every pair at most once")
-				}
-				innerK = append(innerK, k2)
-				return true
-			})
-			vAssert(inner == n, "a Range nested inside a Range callback visits every pair")
-			gv, ok := b.GetForward(k)
-			vAssert(ok && gv == v, "lookups inside a Range callback see the pair being visited")
-			if n >= 2 {
-				vCover("bimap: nested range on >= 2 pairs")
-			}
-		}
-		return calls < stop
-	})
-	want := n
-	if stop < n {
-		want = stop
-		if stop == 0 {
-			want = 1 // the callback is invoked before it can refuse
-		}
-	}
-	if n == 0 {
-		want = 0
-	}
-	vAssert(calls == want, "Range stops as soon as the callback returns false, else visits every pair")
-	for i := range seenK {
-		ev, eok := m.forward(seenK[i])
-		vAssert(eok && ev == seenV[i], "Range visits only pairs of the map")
-		for j := 0; j < i; j++ {
-			vAssert(seenK[j] != seenK[i], "Range visits every pair at most once")
-		}
-	}
-	c11check(b, m, pk, pv, "Range does not modify the map")
-	if calls >= 2 {
-		vCover("bimap: range >= 2 calls")
-	}
 }
 
 func VHBimapHist() {
@@ -361,5 +252,128 @@ func VHBimapPhases() {
 	vAssert(n == b.Len(), "phases: Range visits every pair once")
 	if keep >= 2 && regrow >= 1 {
 		vCover("bimap phases: grow, shrink, grow again")
+	}
+}
+
+// c11direct is set by the white-box file c11wb.go (when it compiles against the tree): it places
+// the given pairs directly in Bimap's two maps. Without it pre-states are built with Add.
+var c11direct func(b *Bimap[int, int], ks, vs []int)
+
+// c11pre builds an arbitrary valid Bimap of n pairs (pairwise distinct keys and values).
+func c11pre() (*Bimap[int, int], *c11model) {
+	m := &c11model{}
+	b := &Bimap[int, int]{}
+	direct := c11direct != nil && vParam("API") == 0
+	n := vChoose("n", vParam("N")+1)
+	if n == 0 {
+		if vChoose("zero", 2) == 1 {
+			if direct {
+				c11direct(b, nil, nil) // allocated but empty maps
+			} else {
+				b.Add(0, 0) // black-box way to an allocated, empty Bimap
+				b.RemoveForward(0)
+			}
+		}
+		return b, m
+	}
+	for i := 0; i < n; i++ {
+		k, v := vInt("k"), vInt("v")
+		for j := range m.ks {
+			vAssume(k != m.ks[j])
+			vAssume(v != m.vs[j])
+		}
+		m.ks, m.vs, m.alive = append(m.ks, k), append(m.vs, v), append(m.alive, true)
+	}
+	if direct {
+		c11direct(b, m.ks, m.vs)
+	} else {
+		for i := range m.ks {
+			b.Add(m.ks[i], m.vs[i]) // pairwise distinct keys and values: nothing is evicted
+		}
+	}
+	return b, m
+}
+
+func VHBimapStep() {
+	b, m := c11pre()
+	pk, pv := vInt("pk"), vInt("pv")
+	c11check(b, m, pk, pv, "pre-state")
+	op := vChoose("op", 4)
+	post := c11op(b, m, op)
+	c11check(b, m, pk, pv, "after the operation")
+	post()
+	if len(m.ks) >= 3 && op == 0 {
+		vCover("bimap: Add on >= 2 pairs")
+	}
+}
+
+func VHBimapCloneRange() {
+	b, m := c11pre()
+	pk, pv := vInt("pk"), vInt("pv")
+	n := len(m.ks)
+	if vChoose("which", 2) == 0 {
+		c := b.Clone()
+		c11check(&c, m, pk, pv, "Clone has the same pairs")
+		c.Add(vInt("ck"), vInt("cv"))
+		if n > 0 {
+			c.RemoveForward(m.ks[0])
+		}
+		c11check(b, m, pk, pv, "modifying the clone leaves the original unchanged")
+		b.Add(vInt("bk"), vInt("bv"))
+		vCover("bimap: clone")
+		return
+	}
+	stop := vChoose("stop", n+2) // stop after this many callbacks (n+1: never)
+	// optionally the callback itself reads the map - lookups and a complete nested Range - during
+	// its nestAt-th invocation: read-only re-entrancy must not disturb the outer iteration
+	nestAt := vChoose("nestAt", n+1) // 0: never
+	var seenK, seenV []int
+	calls := 0
+	b.Range(func(k, v int) bool {
+		calls++
+		seenK, seenV = append(seenK, k), append(seenV, v)
+		if calls == nestAt {
+			inner := 0
+			var innerK []int
+			b.Range(func(k2, v2 int) bool {
+				inner++
+				ev, eok := m.forward(k2)
+				vAssert(eok && ev == v2, "nested Range visits only pairs of the map")
+				for _, x := range innerK {
+					vAssert(x != k2, "nested Range visits every pair at most once")
+				}
+				innerK = append(innerK, k2)
+				return true
+			})
+			vAssert(inner == n, "a Range nested inside a Range callback visits every pair")
+			gv, ok := b.GetForward(k)
+			vAssert(ok && gv == v, "lookups inside a Range callback see the pair being visited")
+			if n >= 2 {
+				vCover("bimap: nested range on >= 2 pairs")
+			}
+		}
+		return calls < stop
+	})
+	want := n
+	if stop < n {
+		want = stop
+		if stop == 0 {
+			want = 1 // the callback is invoked before it can refuse
+		}
+	}
+	if n == 0 {
+		want = 0
+	}
+	vAssert(calls == want, "Range stops as soon as the callback returns false, else visits every pair")
+	for i := range seenK {
+		ev, eok := m.forward(seenK[i])
+		vAssert(eok && ev == seenV[i], "Range visits only pairs of the map")
+		for j := 0; j < i; j++ {
+			vAssert(seenK[j] != seenK[i], "Range visits every pair at most once")
+		}
+	}
+	c11check(b, m, pk, pv, "Range does not modify the map")
+	if calls >= 2 {
+		vCover("bimap: range >= 2 calls")
 	}
 }
